@@ -59,6 +59,17 @@ pub fn monitor(out: &RunOut) -> MonOut {
         let (checks, _waits) = seg::checks(h, &l);
         let xs: Vec<Exchange> = seg::exchanges(h, l.start, l.end);
         let empty_disk = matches!(&h[l.start + 1].kind, Kind::DiskCommitted { map } if map.is_empty());
+        // ids "when set": every request carries the id that was set for it (a retry sets a fresh
+        // request id on the same builder; a setter that keeps the first value shows up as a repeat)
+        let mut seen_ids: BTreeSet<String> = BTreeSet::new();
+        for x in &xs {
+            if let Some(rid) = x.request_id() {
+                m.count("R2.request_ids");
+                if !seen_ids.insert(rid.clone()) {
+                    m.viol(p, "R2", format!("L{}@{}", l.life, x.send_idx), format!("request id {rid} used by two requests"));
+                }
+            }
+        }
         for x in &xs {
             let site = format!("L{}@{}", l.life, x.send_idx);
             m.count("requests");
